@@ -17,12 +17,29 @@
   certificate is NOT enough (`echelonizePluq_generic_full_false`, a kernel-checked counterexample): the pivot columns
   must be the column rank profile, which `check_pluq`'s second output tests per run. Mathlib forms: `ML.rank_mat`,
   `ML.mat_rref`, `ML.mat_isReducedRowEchelon`.
+  END TO END (M4riProofs/Top.lean, PB27) — nothing of C02 is per-input certification any more. Every routine on the
+  PLUQ route now has an exact mirror with a universal theorem: `_mzd_ple_russian` (`PR.pleRussian`, = `_mzd_ple_naive` on
+  every input), `_mzd_ple` = `mzd_ple` (`PR.pleTop L1 L2 L3`: block recursion over the real base case with the real regime
+  parameters), `_mzd_pluq` = `mzd_pluq` (`PR.pluqTop L1 L2 L3`), `mzd_echelonize_pluq` (`PN.echelonizePluq`) and the
+  density-switching hybrid `mzd_echelonize` = `_mzd_echelonize_m4ri(A, full, k, 1, threshold)` (`G2.echelonizeHybrid`, the
+  floating-point density test being an arbitrary parameter `switch`). Proved for EVERY cache triple `L1 L2 L3` (no
+  hypothesis on it), every well-formed `A`, every `switch`, every `k ≥ 1`, every `ktop ≥ 1`, every prior content of the
+  index arrays:
+    `Top.echelonizePluq_pluqTop`        `mzd_echelonize_pluq(A, 1)` returns `(A.rref, A.rank)`
+    `Top.echelonizePluq_pleTop`         `mzd_echelonize_pluq(A, 0)` (calls `mzd_ple`): shape, row space, row echelon form, rank,
+                                        zero rows last (`…_check`: accepted by `checkEchelon`)
+    `Top.echelonizeHybrid_top_correct`  the hybrid over `mzd_echelonize_pluq` over `mzd_pluq`/`mzd_ple`: all of the above for
+                                        both values of `full`; `Top.echelonizeHybrid_top_full_eq`: `= (A.rref, A.rank)`
+    `Top.all_routes_agree`              naive Gauss, M4RI, PLUQ-based and hybrid all return `(A.rref, A.rank)` when `full`
+  What is tied by correspondence only (not by proof) is, as for every model function, that the mirrors are the C code
+  (bit-for-bit differential runs), and `switch` stands for the C density test (any value is covered).
 -/
 import M4riProofs.Gauss
 import M4riProofs.GaussMathlib
 import M4riProofs.M4riElim
 import M4riProofs.PleNaive
 import M4riProofs.MathlibSpec
+import M4riProofs.Top
 namespace M4ri.Props.C02
 open M4ri M4ri.BMat
 
@@ -123,5 +140,44 @@ example : C02_full (fun A full => gaussDelayed A 0 full) := fun _ hA full => che
 #check @M4ri.BMat.ML.mat_isRowEchelon
 #check @M4ri.BMat.ML.mat_isReducedRowEchelon
 #check @M4ri.BMat.ML.mat_rref
+
+
+-- end to end for the real routine stack (M4riProofs/Top.lean), every cache triple, every well-formed input
+/-- `mzd_echelonize_pluq(A, 1)` over the real `mzd_pluq` -/
+theorem pluq_route_full (L1 L2 L3 : Nat) {A : BMat} (hA : A.WF) :
+    PN.echelonizePluq (PR.pluqTop L1 L2 L3) A true = (A.rref, A.rank) := Top.echelonizePluq_pluqTop L1 L2 L3 hA
+
+/-- `mzd_echelonize(A, 1)` (hybrid M4RI / PLUQ, every density decision) over the real stack -/
+theorem hybrid_route_full (L1 L2 L3 : Nat) (switch : Nat → Nat → BMat → Bool) {A : BMat} (hA : A.WF) {k : Nat}
+    (hk : 1 ≤ k) (ktop : Nat → Nat) (hkt : ∀ r, 1 ≤ ktop r) (junk junkTop : Nat → Nat) :
+    G2.echelonizeHybrid switch
+      (fun W full => PN.echelonizePluq (if full then PR.pluqTop L1 L2 L3 else PR.pleTop L1 L2 L3) W full)
+      A true k ktop junk junkTop = (A.rref, A.rank) :=
+  Top.echelonizeHybrid_top_full_eq L1 L2 L3 switch ktop junk junkTop hA hk hkt
+
+/-- the statement `C02_full` above, now PROVED for the mirror of `mzd_echelonize_pluq` over the real factorisations … -/
+theorem C02_full_pluq (L1 L2 L3 : Nat) : C02_full (Top.pluqEchTop L1 L2 L3) :=
+  fun A hA full => (Top.goodPluqEch_top L1 L2 L3 A full hA).2
+
+/-- … and for the hybrid `mzd_echelonize` on top of it, whatever the density test decides -/
+theorem C02_full_hybrid (L1 L2 L3 : Nat) (switch : Nat → Nat → BMat → Bool) {k : Nat} (hk : 1 ≤ k) :
+    C02_full (fun A full => G2.echelonizeHybrid switch (Top.pluqEchTop L1 L2 L3) A full k) :=
+  fun _ hA full =>
+    (G2.echelonizeHybrid_correct switch (Top.goodPluqEch_top L1 L2 L3) hA full hk _ (fun _ => hk) _ _).2.2.2.2.2.2.2.2
+
+#check @M4ri.BMat.Top.goodPle_pleTop
+#check @M4ri.BMat.Top.pluqTop_eq
+#check @M4ri.BMat.Top.echelonizePluq_pluqTop
+#check @M4ri.BMat.Top.echelonizePluq_pleTop_check
+#check @M4ri.BMat.Top.echelonizePluq_pleTop
+#check @M4ri.BMat.Top.goodPluqEch_top
+#check @M4ri.BMat.Top.echelonizeHybrid_top_correct
+#check @M4ri.BMat.Top.echelonizeHybrid_top_full_eq
+#check @M4ri.BMat.Top.all_routes_agree
+#check @M4ri.BMat.PR.pleRussian_eq_pleNaive
+#check @M4ri.BMat.G2.echelonizeHybrid_correct
+#check @M4ri.BMat.G2.echelonizeHybrid_full_eq
+#check @M4ri.BMat.G2.echelonizePluq_full_eq
+#check @M4ri.BMat.G2.goodPluqEch_of_goodPle
 
 end M4ri.Props.C02
